@@ -14,6 +14,9 @@ x unquoted / double-quoted x affixes x argument positions.  Three comparisons pe
 L2 (real binary, `cicada -c`): helper hp as the program: exit status 7 comes back (the helper ran
 in the foreground and was waited for), exactly the expected helper runs were recorded, argv
 carries the produced text, the set of files in the scratch directory is unchanged.
+Mixed lines (L1 and L2-mixed): the operator-only values (`<`, `<<<`, `>`, `>>`, `|`, `&`, `2>&1`, ...) double-quoted on
+lines that ALSO carry one genuine operator (`< f`, `<<< w`, `> f`, `>> f`, `2>&1`, `| sink`, trailing `&`), value before
+and after it: the plan / the observable behaviour must be exactly that of a harmless value in the same place.
 Known-finding classes (mirroring Known_C13 of Properties/C13.v) are handled three-way."""
 import os, re, shutil, subprocess, tempfile
 import common as C
@@ -25,7 +28,8 @@ NEEDS_CICADA = True
 ALLOWED_AXIOMS = []
 PINNED = ["C13_dq", "C13_unquoted_full", "C13_refuted", "C13_unquoted_partial", "C13_unquoted_exact", "Known_C13",
           "C13_subst_refuted", "C13_glob_refuted", "C13_output_refuted", "C13_post_passes", "C13_post_passes_exact",
-          "C13_known_is_not_inert", "C13_witness_pipe", "C13_witness_gt", "C13_witness_amp", "C13_witness_lt", "C13_nonvacuous"]
+          "C13_known_is_not_inert", "C13_unquoted_exact_text", "C13_tokenize_unquoted", "C13_post_passes_from",
+          "C13_dq_with_input", "C13_witness_value_and_genuine_lt", "C13_witness_pipe", "C13_witness_gt", "C13_witness_amp", "C13_witness_lt", "C13_nonvacuous"]
 TRUSTED = [
     "Coq 8.16.1 kernel (coqc; coqchk in thorough); vm_compute only in concrete witnesses / non-vacuity examples",
     "hand transcriptions composed by Model/FullPlan.v: parse_line (Model/Tokenizer.v), do_expansion and its passes "
@@ -242,6 +246,74 @@ def glob_cases(ctx, work):
     return cases
 
 
+# ---------------------------------------------------------------- a value next to a GENUINE operator on the same line
+MIXVALS = ["<", "<<<", ">", ">>", "|", "&", "2>&1", "a>b", "<f", ";x", "#c", "a b", "", "<<", "&&", "||", "1>&2", ">f", "x"]
+MIX_HARMLESS_UNQUOTED = ["x", ";x", "#c"]
+P_, SINK_ = ("", PROG), ("", "sink")
+# (name, line with {V}, builder of (bg, [(tokens, redirs, from)]) from the value token V)
+MIX_TEMPLATES = [
+    ("in_after", "prog {V} < f", lambda V: (0, [([P_, V], [], ("<", "f"))])),
+    ("in_before", "prog < f {V}", lambda V: (0, [([P_, V], [], ("<", "f"))])),
+    ("in_mid", "prog 'y' {V} < f 'z'", lambda V: (0, [([P_, ("'", "y"), V, ("'", "z")], [], ("<", "f"))])),
+    ("here_after", "prog {V} <<< w", lambda V: (0, [([P_, V], [], ("<<<", "w"))])),
+    ("here_before", "prog <<< w {V}", lambda V: (0, [([P_, V], [], ("<<<", "w"))])),
+    ("out_after", "prog {V} > f", lambda V: (0, [([P_, V], [("1", ">", "f")], None)])),
+    ("out_before", "prog > f {V}", lambda V: (0, [([P_, V], [("1", ">", "f")], None)])),
+    ("append", "prog {V} >> f", lambda V: (0, [([P_, V], [("1", ">>", "f")], None)])),
+    ("dup", "prog {V} 2>&1", lambda V: (0, [([P_, V], [("2", ">", "&1")], None)])),
+    ("pipe_left", "prog {V} | sink", lambda V: (0, [([P_, V], [], None), ([SINK_], [], None)])),
+    ("pipe_right", "prog x | sink {V}", lambda V: (0, [([P_, ("", "x")], [], None), ([SINK_, V], [], None)])),
+    ("bg", "prog {V} &", lambda V: (1, [([P_, V], [], None)])),
+    ("bg_mid", "prog {V} x &", lambda V: (1, [([P_, V, ("", "x")], [], None)])),
+    ("in_out", "prog {V} < f > g", lambda V: (0, [([P_, V], [("1", ">", "g")], ("<", "f"))])),
+    ("two_values", "prog {V} < f {V}", lambda V: (0, [([P_, V, V], [], ("<", "f"))])),
+]
+# the same shapes for the real binary: {HP} = helper path, files f (input) / g (output) in the scratch directory
+MIX_L2 = [
+    ("in_after", "{HP} @r,x7 {V} < f"), ("in_before", "{HP} @r,x7 < f {V}"), ("in_mid", "{HP} @r,x7 'y' {V} < f 'z'"),
+    ("here_after", "{HP} @r,x7 {V} <<< w"), ("here_before", "{HP} @r,x7 <<< w {V}"),
+    ("out_after", "{HP} @w5,x7 {V} > g"), ("out_before", "{HP} @w5,x7 > g {V}"), ("append", "{HP} @w5,x7 {V} >> g"),
+    ("dup", "{HP} @e5,x7 {V} 2>&1"),
+    ("pipe_left", "{HP} @w5,x7 {V} | {HP} @r,x3"), ("pipe_right", "{HP} @w5,x7 x | {HP} @r,x3 {V}"),
+    ("bg", "{HP} @x7 {V} &"), ("in_out", "{HP} @r,w5,x7 {V} < f > g"), ("two_values", "{HP} @r,x7 {V} < f {V}"),
+]
+BASEVAL = "BASEVAL"
+
+
+def plan_string(bg, cmds):
+    def tok(t):
+        return '("%s","%s")' % (C.enc(t[0]), C.enc(t[1]))
+    out = []
+    for toks, redirs, frm in cmds:
+        out.append("C(tokens=[%s],redirs=[%s],from=%s)" % (
+            ",".join(tok(t) for t in toks),
+            ",".join('("%s","%s","%s")' % tuple(C.enc(x) for x in r) for r in redirs),
+            "None" if frm is None else '("%s","%s")' % (C.enc(frm[0]), C.enc(frm[1]))))
+    return "P(bg=%d,envs=[],cmds=[%s])" % (bg, ",".join(out))
+
+
+def mixed_specs():
+    """(written argument, tag of the resulting token, function value -> produced text)"""
+    specs = [('"$A"', '"', "", ""), ('"${A}"', '"', "", ""), ('"p${A}.q"', '"', "p", ".q")]
+    return specs
+
+
+def mixed_cases(ctx, empty):
+    cases = []
+    for name, tpl, build in MIX_TEMPLATES:
+        for v in MIXVALS:
+            for arg, tag, pre, post in mixed_specs():
+                text = pre + v + post
+                cases.append({"kind": "mixed:" + name, "line": tpl.replace("{V}", arg), "ents": [("E", "A", v), ("D", "", empty)],
+                              "quoted": True, "text": text, "value": v, "before": [], "after": [], "classes": set(), "alts": None,
+                              "expect_plan": plan_string(*build((tag, text)))})
+        for v in MIX_HARMLESS_UNQUOTED:
+            cases.append({"kind": "mixed:" + name, "line": tpl.replace("{V}", "$A"), "ents": [("S", "A", v), ("D", "", empty)],
+                          "quoted": False, "text": v, "value": v, "before": [], "after": [], "classes": set(), "alts": None,
+                          "expect_plan": plan_string(*build(("", v)))})
+    return cases
+
+
 # ---------------------------------------------------------------- run
 def run(ctx, res):
     rng = ctx.rng
@@ -274,6 +346,7 @@ def run(ctx, res):
             c["ents"].append(("D", "", empty))
         cases += subst_cases(ctx, work)
         cases += glob_cases(ctx, work)
+        cases += mixed_cases(ctx, empty)
         res.rule = ("L1: %d listed values (every operator character alone and embedded, blanks, quotes, dollar, braces, newlines, "
                     "glob / brace / substitution syntax) + random values over %r, delivered through $NAME and ${NAME} (process "
                     "environment or shell variable), $(..) and backquotes (%d outputs), `*` matches (%d directory populations), each "
@@ -305,7 +378,7 @@ def run(ctx, res):
                 continue
             iplan_s = o[o.index(" plan=") + 6:]
             iplan = parse_plan(iplan_s)
-            ok = judge(iplan, c["before"], c["after"], c["alts"])
+            ok = (iplan_s == c["expect_plan"]) if "expect_plan" in c else judge(iplan, c["before"], c["after"], c["alts"])
             kcs = c["classes"]
             if iplan_s != g:
                 if not (ok and kcs):
@@ -325,8 +398,8 @@ def run(ctx, res):
             key = "+".join(sorted(kcs)) or "none"
             stats["fail:" + key] = stats.get("fail:" + key, 0) + 1
             if not kcs:
-                violate(kind="oracle", layer="L1", input=inp, expected="one foreground command, no redirection, words = %r + %r + %r"
-                        % (c["before"], c["alts"], c["after"]), observed=iplan_s, failing_input=True,
+                violate(kind="oracle", layer="L1", input=inp, expected=c.get("expect_plan") or "one foreground command, no redirection, "
+                        "words = %r + %r + %r" % (c["before"], c["alts"], c["after"]), observed=iplan_s, failing_input=True,
                         note="text produced by an expansion was re-read as shell syntax (or lost) outside every known-finding class")
             elif not all(k in known for k in kcs):
                 violate(kind="oracle", layer="L1", input=inp, observed=iplan_s, failing_input=True,
@@ -429,6 +502,69 @@ def run(ctx, res):
                     hit(k, "%s A=%r -> %s" % (line[len(hp) - 2:], c["value"], str(obs)[:100]))
         res.extra["l2_outcomes"] = stats2
         res.sample({"layer": "L2", "input": outs[0][0], "status": outs[0][1], "helper_runs": outs[0][2]})
+
+        # ---------- L2-mixed: a double-quoted value next to a genuine operator; reference = the same line with a harmless value
+        import time
+
+        def run_mixed(job):
+            ix, name, tpl, arg, v = job
+            d = os.path.join(work, "m%d" % ix)
+            os.makedirs(d)
+            open(os.path.join(d, "f"), "w").write("hello\n")
+            tr = os.path.join(work, "mt%d" % ix)
+            env = {"VERIF_TRACE": tr, "HOME": d, "XDG_CONFIG_HOME": d, "PATH": "/usr/bin:/bin", "A": v}
+            line = tpl.replace("{HP}", hp).replace("{V}", arg)
+            try:
+                pr = subprocess.run([ctx.cicada, "-c", line], cwd=d, env=env, stdin=subprocess.DEVNULL,
+                                    stdout=subprocess.PIPE, stderr=subprocess.PIPE, timeout=20)
+                rc, out = pr.returncode, pr.stdout
+            except subprocess.TimeoutExpired:
+                rc, out = "TIMEOUT", b""
+            want = line.count(hp)
+            for _ in range(60):      # a background helper may still be starting
+                if os.path.exists(tr) and len(open(tr).read().split("\n")) - 1 >= want:
+                    break
+                if name != "bg":
+                    break
+                time.sleep(0.05)
+            recs = []
+            if os.path.exists(tr):
+                for l in open(tr):
+                    kv = dict(f.split("=", 1) for f in l.rstrip("\n").split("\t") if "=" in f)
+                    recs.append(([C.dec(a) for a in kv.get("argv", "").split(",")], kv.get("stdin", "")))
+            files = {n: open(os.path.join(d, n), "rb").read() for n in sorted(os.listdir(d))}
+            return line, (rc, out, recs, files)
+
+        mjobs = []
+        mvals = MIXVALS if ctx.thorough else ["<", "<<<", ">", ">>", "|", "&", "2>&1", "a>b", ";x", "#c", "a b"]
+        for name, tpl in MIX_L2:
+            for arg, tag, pre, post in (mixed_specs() if ctx.thorough else mixed_specs()[:1]):
+                mjobs.append((len(mjobs), name, tpl, arg, BASEVAL))
+                for v in mvals:
+                    mjobs.append((len(mjobs), name, tpl, arg, v))
+        with ThreadPoolExecutor(max_workers=C.NCPU) as ex:
+            mouts = list(ex.map(run_mixed, mjobs))
+        res.count("L2_mixed_cicada_c", len(mjobs))
+        base = {}
+        for (ix, name, tpl, arg, v), (line, obs) in zip(mjobs, mouts):
+            if v == BASEVAL:
+                base[(name, arg)] = obs
+        for (ix, name, tpl, arg, v), (line, obs) in zip(mjobs, mouts):
+            if v == BASEVAL:
+                rc0, _, recs0, _ = obs
+                good = rc0 in (0, 3, 7) and len(recs0) == line.count(hp)
+                if not good:
+                    violate(kind="oracle", layer="L2-mixed", input={"line": line, "env": {"A": v}}, observed=str(obs)[:300],
+                            failing_input=True, note="the reference run (harmless value) of a line with a genuine operator did not run its helpers")
+                continue
+            brc, bout, brecs, bfiles = base[(name, arg)]
+            want = (brc, bout, [([a.replace(BASEVAL, v) for a in argv], st) for argv, st in brecs], bfiles)
+            res.nontrivial("mixed:%s:%s" % (name, v))
+            if obs != want:
+                violate(kind="oracle", layer="L2-mixed", input={"line": line, "env": {"A": v}, "files": {"f": "hello\n"}},
+                        expected="as with a harmless value: status %r, helper runs %r, files %r" % (want[0], want[2], sorted(want[3])),
+                        observed="status %r, helper runs %r, files %r" % (obs[0], obs[2], sorted(obs[3])), failing_input=True,
+                        note="a double-quoted produced value changed how a genuine operator of the same line acts (or was not passed as one argument)")
     finally:
         flush()
         os.chdir(cwd0)
